@@ -1,7 +1,7 @@
 """Which jobs and extra checks decide which property (the sidecar's table of contents)."""
 import importlib
 
-JOB_MODULES = ["contracts.jobs_basic", "contracts.jobs_multi", "contracts.jobs_classes", "contracts.jobs_context", "contracts.jobs_asynctools"]
+JOB_MODULES = ["contracts.jobs_basic", "contracts.jobs_multi", "contracts.jobs_classes", "contracts.jobs_context", "contracts.jobs_asynctools", "contracts.jobs_core"]
 CANARY = "contracts.jobs_canary"
 
 _cache = {}
@@ -17,8 +17,14 @@ def jobs_for(prop, tier):
     out = []
     for m in JOB_MODULES:
         for j in _jobs(m):
-            if prop in j.props and (tier == "thorough" or not j.opts.get("thorough_only")):
+            if tier != "thorough" and j.opts.get("thorough_only"):
+                continue
+            if prop in j.props:
                 out.append((m, j.name))
+            elif prop == "C17" and j.kind != "static":
+                out.append((m, j.name))       # every job contributes its await-operand classification
+            elif prop == "C03" and m in ("contracts.jobs_basic", "contracts.jobs_multi", "contracts.jobs_classes"):
+                out.append((m, j.name))       # tools call user callables only through the awaitify contract
     return out
 
 
@@ -29,6 +35,8 @@ def find_job(name):
                 return (m, j.name)
     raise KeyError(name)
 
+
+from pyvc import typing_pass
 
 TB_COMMON = [
     "pyvc itself (AST interpreter, lock-step driver, cut-point/Houdini logic): ~3k lines of unverified Python",
@@ -42,6 +50,9 @@ PROPS = {
                 explanation="relational proof: every yielded item (object identity) and the final outcome of each tool equal those of the reference generator, for all items/lengths (loop cut + inductive coupling invariant)"),
     "C02": dict(level="proof", canaries=[(CANARY, "canary:max-last-of-ties")], trusted_base=TB_COMMON + ["list.sort = stable sort (uninterpreted sort_by)"],
                 explanation="relational proof of return value / exception class against the reference aggregation; mutation of arguments shows as an in-place Op event the reference never performs"),
+    "C03": dict(level="proof", canaries=[(CANARY, "canary:filter-yields-before-test")], extra=[typing_pass.kind_pass],
+                trusted_base=TB_COMMON + ["isinstance(x, Awaitable/AsyncIterable) and iscoroutinefunction as A9 says", "a callable keeps its flavour between calls (A6)"],
+                explanation="(a) contracts of _core.aiter/_aiter_sync/ScopedIter/borrow/awaitify/Awaitify proved on the real code for every iterable flavour (async generator, class-based with/without aclose, sync iterable, sequence) and callable flavour (def, async def/partial of one, callable returning an awaitable), incl. the cached state of Awaitify; (b) every tool is verified against those contracts only and every user callable is invoked through awaitify and awaited at once (neutral-call / await-adjacent obligations), so tool proofs never depend on the flavour; (c) result-kind judgement for every public name"),
     "C04": dict(level="proof", canaries=[(CANARY, "canary:enumerate-leaks-source")], trusted_base=TB_COMMON,
                 explanation="release postcondition at every exit path (exhaustion, consumer close at every yield, raise/cancel at every pull/call)"),
     "C05": dict(level="proof", canaries=[(CANARY, "canary:filter-yields-before-test")], trusted_base=TB_COMMON,
@@ -64,6 +75,9 @@ PROPS = {
                 trusted_base=TB_COMMON + ["specification contracts/refs/ref_asynctools.py (written from the property text: which values are awaited, in which order, when)",
                                           "isinstance(x, Awaitable) / isinstance(x, AsyncIterable) decided per enumerated shape (A9)"],
                 explanation="relational proof of any_iter (all 12 shape combinations), await_each, apply (positional/keyword splits) and sync against the adapter specification: same pulls, same awaits in the same order, only when the consumer asks; same result"),
+    "C17": dict(level="proof", canaries=[(CANARY, "canary:filter-yields-before-test")], extra=[typing_pass.effect_pass],
+                trusted_base=TB_COMMON + ["`await x` for a user awaitable passes loop traffic through unchanged (language semantics of await = yield from, A4): assumed, not proved"],
+                explanation="effect typing: on every explored path of every job each `await` operand is a library coroutine / library generator method / library awaitable object (recursively typed) or an awaitable supplied by the user; statically: no asyncio import beyond iscoroutinefunction, no loop/sleep/lock/task primitive, no manual send/throw, no executable yield in a library __await__"),
     "C18": dict(level="proof", canaries=[(CANARY, "canary:enumerate-leaks-source")], trusted_base=TB_COMMON,
                 explanation="cancellation (BaseException thrown in at every suspension point): same exception propagates, sources released"),
 }
